@@ -172,7 +172,7 @@ def _exec(self, s, st, frame):
         frame.last_end = 'return'
         want = self.capture_locals.get(frame.fsym.qname)
         if want:
-            self.captured.setdefault(frame.fsym.qname, []).append({k: st.env.get(k) for k in want})
+            self.captured.setdefault(frame.fsym.qname, []).append(dict(st.env) if want == '*' else {k: st.env.get(k) for k in want})
         return None
     if isinstance(s, ast.Raise):
         frame.last_end = 'raise'
@@ -478,6 +478,22 @@ def store_subscript(self, t, v, st, node):
                     vs = None
                 if ia is not None and ia.a is not None and vs is not None:
                     new.seg = segmap.setitem(base.seg, ia.a, vs)
+                elif isinstance(idx, SliceV) and idx.step is None and vs is not None and base.shape[0] is not None \
+                        and nv.shape is not None and len(nv.shape) == 1:
+                    # B[lo:hi] = V on a re-arrangement B: the pieces before lo and after hi stay, V's map sits between them
+                    from .prims import _int_aff
+                    lo_ = Aff(0) if idx.lo is None else _int_aff(idx.lo)
+                    hi_ = base.shape[0] if idx.hi is None else _int_aff(idx.hi)
+                    lo_ = segmap.norm_index(lo_, base.shape[0]) if lo_ is not None else None
+                    hi_ = hi_ if (hi_ is None or idx.hi is None) else segmap.norm_index(hi_, base.shape[0])
+                    if lo_ is not None and hi_ is not None and segmap.length(vs) == hi_ - lo_:
+                        try:
+                            head = segmap.take(base.seg, Aff(0), lo_)
+                            tail = segmap.take(base.seg, hi_, base.shape[0])
+                            if head is not None and tail is not None:
+                                new.seg = segmap.concat([head, list(vs), tail])
+                        except Exception:
+                            pass
             if base.shape is not None and len(base.shape) == 2 and nv.seg is not None and nv.shape is not None and len(nv.shape) == 1 \
                     and not isinstance(idx, (Tup, SliceV)) and _asint(idx) is not None:
                 # M[i] = row: every row written carries the same index map along the second axis
